@@ -337,3 +337,18 @@ PROPS['C02'] = dict(
                 witnesses=['done'] + (['resonant_branch', 'non_resonant_branch'] if t >= 2 else []),
                 validate=[{'perm': 2, 'freq': 1, 'P1': '1/3', 'P2': '-1/3', 'P3': '1/5'}]) for t in range(4)],
 )
+
+PROPS['C15'] = dict(
+    claim='MatsubaraContainer4::fill/operator() (real template, stub source with an injective value function) for a SYMBOLIC query triple in a '
+          'box extending beyond the window on every side: returns the source value for hits and misses, uses the stored value exactly inside '
+          'the window, every symbolic table index stays in bounds; Vertex4::value combines chi and the four Green functions as documented '
+          '(coinciding frequencies included) and Vertex4::compute/operator() are transparent.',
+    bounds={Q: 'window sizes N = 0..2, triples in [-N-2, N+1]^3 (symbolic); vertex at 6 frequency triples covering n1=n3, n2=n3, both, none',
+            T: 'window sizes N = 0..4'},
+    assumptions=['double read as exact real', 'chi and G evaluate as decided in C01/C02'],
+    outside=['window sizes beyond the bound'],
+    units=[dict(name='mc4_n2', harness='h_mc4', defs=['NMAX=2'], split={'N': R(3)}, witnesses=['done', 'hit', 'miss', 'empty_window'], validate=[{'N': 2, 'n1': 1, 'n2': -1, 'n3': 0}, {'N': 1, 'n1': 1, 'n2': 0, 'n3': 0}]),
+           dict(name='mc4_n4', harness='h_mc4', defs=['NMAX=4'], split={'N': [3, 4]}, tiers=[T], witnesses=['done', 'hit', 'miss']),
+           dict(name='vertex_value', harness='h_vertex', defs=[], split={'freq': R(6)}, witnesses=['done', 'n1_eq_n3', 'n2_eq_n3'],
+                validate=[{'freq': 1}, {'freq': 3}])],
+)
